@@ -108,14 +108,17 @@ static bool has_16digit_overflow(const json::value &v){ switch(v.type()){ case j
 	case json::is_array: for(size_t i=0;i<v.array().size();i++) if(has_16digit_overflow(v.array()[i])) return true; return false;
 	case json::is_object: for(json::object::const_iterator i=v.object().begin();i!=v.object().end();++i) if(has_16digit_overflow(i->second)) return true; return false; default: return false; } }
 static void roundtrip_case(const json::value &v){ static std::locale comma(std::locale::classic(),new comma_punct());
-	for(int how=0;how<2;how++) for(int loc=0;loc<2;loc++){ vf::eval(); std::ostringstream o; if(loc) o.imbue(comma); v.save(o,how?json::readable:json::compact); std::string text=o.str(); vf::announce("roundtrip "+vf::hex(text.substr(0,1500)));
+	// loc: 0 = classic locale, 1 = the stream is imbued with a locale using ',' as decimal point and '.' grouping, 2 = that locale is the process-GLOBAL one (every
+	// stream the library creates internally picks it up)
+	struct GlobalGuard { std::locale old; bool on; GlobalGuard():on(false){} void set(const std::locale &l){ old=std::locale::global(l); on=true; } ~GlobalGuard(){ if(on) std::locale::global(old); } };
+	for(int how=0;how<2;how++) for(int loc=0;loc<3;loc++){ GlobalGuard gg; if(loc==2) gg.set(comma); vf::eval(); std::ostringstream o; if(loc==1) o.imbue(comma); v.save(o,how?json::readable:json::compact); std::string text=o.str(); vf::announce("roundtrip "+vf::hex(text.substr(0,1500)));
 		if(loc){ std::string t0=v.save(how?json::readable:json::compact); if(t0!=text) bad("json:locale-dependent-output","serialization depends on the stream locale: "+vf::vis(text.substr(0,80)),t0); std::ostringstream chk; chk.imbue(comma); chk<<1234.5; if(o.getloc()!=comma) bad("json:locale-not-restored","stream locale not restored after save","" ); }
-		json::value v2; std::istringstream in(text); if(loc) in.imbue(comma); if(!v2.load(in,true)){ if(has_16digit_overflow(v)) bad("json:roundtrip-reject:16-digit-rendering-overflows","serialized text does not parse back: a finite number within half a unit of the 16th digit below DBL_MAX is printed as a decimal that exceeds DBL_MAX",text); else bad("json:roundtrip-reject","serialized text does not parse back",text); continue; }
+		json::value v2; std::istringstream in(text); if(loc==1) in.imbue(comma); if(!v2.load(in,true)){ if(has_16digit_overflow(v)) bad("json:roundtrip-reject:16-digit-rendering-overflows","serialized text does not parse back: a finite number within half a unit of the 16th digit below DBL_MAX is printed as a decimal that exceeds DBL_MAX",text); else bad("json:roundtrip-reject","serialized text does not parse back",text); continue; }
 		std::string why; if(!approx_equal(v,v2,why)) { bad("json:roundtrip-value","serialized text parses back to a different value: "+why,text); continue; }
 		{ Node n; RefParser rp(text); if(!rp.doc(n)||rp.dup) bad("json:output-not-strict","serialized text is not a strict RFC 8259 document",text); }
 		std::string t2=v2.save(how?json::readable:json::compact); json::value v3; { const char *b=t2.data(); if(!v3.load(b,t2.data()+t2.size(),true)||!(v3==v2)) bad("json:second-round","second round trip is not exact",t2); }
-		{ std::stringstream ss; if(loc) ss.imbue(comma); ss<<v; json::value v4; ss>>v4; if(!ss&&has_16digit_overflow(v)) bad("json:roundtrip-reject:16-digit-rendering-overflows","operator<< text does not parse back (same cause)",text); else if(!ss||!approx_equal(v,v4,why)) bad("json:stream-operators","operator<< then operator>> does not round-trip: "+why,text); }
-		vf::outcome("rt:"+text.substr(0,40)); vf::guard("roundtrips"); } }
+		{ std::stringstream ss; if(loc==1) ss.imbue(comma); ss<<v; json::value v4; ss>>v4; if(!ss&&has_16digit_overflow(v)) bad("json:roundtrip-reject:16-digit-rendering-overflows","operator<< text does not parse back (same cause)",text); else if(!ss||!approx_equal(v,v4,why)) bad("json:stream-operators","operator<< then operator>> does not round-trip: "+why,text); }
+		if(loc==2) vf::guard("roundtrips_under_global_locale"); vf::outcome("rt:"+text.substr(0,40)); vf::guard("roundtrips"); } }
 static void roundtrip_pass(int sh,int n){ std::vector<json::value> a=atoms(); std::vector<json::value> l2; uint64_t idx=0; // depth<=2 trees
 	l2=a; for(size_t i=0;i<a.size();i++){ json::value v; v[0]=a[i]; l2.push_back(v); json::value o; o["k"]=a[i]; l2.push_back(o); } for(size_t i=0;i<a.size();i++) for(size_t j=0;j<a.size();j++){ json::value v; v[0]=a[i]; v[1]=a[j]; l2.push_back(v); json::value o; o["a"]=a[i]; o[std::string("b\"\xc3\xa9")]=a[j]; l2.push_back(o); }
 	for(size_t i=0;i<l2.size();i++) if((idx++%n)==(uint64_t)sh) roundtrip_case(l2[i]);
@@ -141,10 +144,10 @@ static void extract_pass(){ extract_int<char>("char"); extract_int<signed char>(
 int main(int argc,char **argv){ vf::init(argc,argv,"C11","exploration"); int n=16; bool th=vf::thorough();
 	if(!vf::C().replay_file.empty()){ std::ifstream f(vf::C().replay_file); std::stringstream ss; ss<<f.rdbuf(); std::string in=vf::unhex(vf::jfield(ss.str(),"input_hex")); int r=parse_case(in); printf("replayed %s -> %s\n",vf::vis(in.substr(0,200)).c_str(),r?"accepted":"rejected"); json::value v; const char *b=in.data(); if(v.load(b,in.data()+in.size(),true)) roundtrip_case(v); return vf::finish(); }
 	if(vf::C().pass=="enum"){ vf::parallel(n,n,[&](int sh){ enum_pass(sh,n,th?7:6,th?7:6,false); },1500); return vf::finish(); }
-	vf::C().rule=std::string("(a) every string of length <= ")+(th?"7":"6")+" over 18 characters {[ ] { } : , \" \\ u 0 1 - . e t a space 0xC3} and (b) every sequence of <= "+(th?"7":"6")+" tokens from a 16-token set (rel build; lengths <= 4 again under ASan); (c) every byte and byte pair inside quotes, every escape letter, 15x15 \\u pairs; (d) a 2x9x6x12 number grid in 4 contexts + 27 malformed numbers; (e) nesting 0..8, 505..520, 600 in 4 shapes; (f) all value trees of depth <= 2 over 24 atoms, depth 3 single-child and a pair grid, x {compact,readable} x {classic, comma-decimal locale}; (g) typed extraction for 11 integer types x 37 candidates, float, double. distinct = (verdict, strictness, value prefix) for parses, output text for round trips, (type,candidate,verdict) for extraction; non-trivial = all counted ones";
+	vf::C().rule=std::string("(a) every string of length <= ")+(th?"7":"6")+" over 18 characters {[ ] { } : , \" \\ u 0 1 - . e t a space 0xC3} and (b) every sequence of <= "+(th?"7":"6")+" tokens from a 16-token set (rel build; lengths <= 4 again under ASan); (c) every byte and byte pair inside quotes, every escape letter, 15x15 \\u pairs; (d) a 2x9x6x12 number grid in 4 contexts + 27 malformed numbers; (e) nesting 0..8, 505..520, 600 in 4 shapes; (f) all value trees of depth <= 2 over 24 atoms, depth 3 single-child and a pair grid, x {compact,readable} x {classic locale, stream imbued with a comma-decimal grouping locale, that locale as the process-global one}; (g) typed extraction for 11 integer types x 37 candidates, float, double. distinct = (verdict, strictness, value prefix) for parses, output text for round trips, (type,candidate,verdict) for extraction; non-trivial = all counted ones";
 	vf::assume("reference: strict RFC 8259 recogniser + tree builder in harness/C11 (numbers via strtod on the exact token); acceptance of a superset (comments, leading zeros, '1.', bare scalars) is not a violation");
 	vf::assume("inf/NaN have no JSON form and are not generated; float extraction is required to be the nearest float for in-range numbers");
 	vf::run_sub("rel","enum");
 	vf::parallel(n,n,[&](int sh){ enum_pass(sh,n,4,4,true); strings_pass(sh,n); numbers_pass(sh,n); depth_pass(sh,n); roundtrip_pass(sh,n); if(sh==0) extract_pass(); },1500);
-	vf::require_guard("strict_valid_documents"); vf::require_guard("accepted_superset"); vf::require_guard("rejected"); vf::require_guard("depth_beyond_bound"); vf::require_guard("roundtrips"); vf::require_guard("extract_exact"); vf::require_guard("extract_throws");
+	vf::require_guard("strict_valid_documents"); vf::require_guard("roundtrips_under_global_locale"); vf::require_guard("accepted_superset"); vf::require_guard("rejected"); vf::require_guard("depth_beyond_bound"); vf::require_guard("roundtrips"); vf::require_guard("extract_exact"); vf::require_guard("extract_throws");
 	return vf::finish(); }
